@@ -42,7 +42,16 @@ ASSUMPTIONS = [
     "json.loads(json.dumps(d)) == d for dicts of str/int/float/bool/None/list (floats compared by bit pattern, NaN included)",
 ]
 
-FINDING_OF = {"inline-asm": "irjson:inline-asm", "name-capture": "irjson:name-capture"}
+FINDING_OF = {"inline-asm": "irjson:inline-asm"}
+CAPTURE_A = "irjson:name-capture:value-hides-global-used-in-same-function"
+CAPTURE_B = "irjson:name-capture:later-value-captures-forward-reference"
+
+
+def finding_signature(reasons, m):
+    r = reasons[0]
+    if r == "name-capture":
+        return CAPTURE_A if K.capture_in_same_function(m) else CAPTURE_B
+    return FINDING_OF.get(r, "irjson:" + r)
 ILL_FORMED = {"global-names", "init-bytes", "local-names", "dangling-operand", "dangling-block", "types",
               "early-terminator", "entry", "phi-keys"}
 
@@ -75,17 +84,20 @@ def real_roundtrip(m):
         r.update(stage="read", exc=type(e).__name__)
         return r
     try:
+        r["id2"] = K.identity_walk(m2)
         r["s2"] = irser.serialize(m2)
     except Exception as e:  # noqa
         r.update(stage="walk", exc=type(e).__name__)
     return r
 
 
-def failure_kind(r, s1):
+def failure_kind(r, s1, id1=None):
     if r["stage"] != "ok":
         return f"{r['stage']}:{r['exc']}"
     if r["s2"] != s1:
         return "structure-differs"
+    if id1 is not None and r.get("id2") != id1:
+        return "identity-differs"
     return None
 
 
@@ -114,6 +126,8 @@ def check(ctx):
         m = c["module"]
         c["plain"] = K.plain_names(m)
         c["s1"] = irser.serialize(m)
+        c["id1"] = K.identity_walk(m)
+        c["verifies"] = K.ppci_verifies(m)
         c["real"] = real_roundtrip(m)
         c["at"] = len(reqs)
         s1 = c["s1"]
@@ -130,7 +144,7 @@ def check(ctx):
     for c in cases:
         g, r = c["gen"], c["real"]
         if (len(runs_of) < lim and g is not None and g.entries and out[c["at"]] == "ok 1"
-                and failure_kind(r, c["s1"]) is None):
+                and failure_kind(r, c["s1"], c["id1"]) is None):
             runs = [(e, a) for e in g.entries if e.external_ok for a in K.irgen.gen_args(ctx.rng, e, 2)][:6]
             if runs:
                 runs_of[c["label"]] = runs
@@ -154,8 +168,17 @@ def check(ctx):
         ctx.count("in_fragment" if in_frag else "outside_fragment")
         for rs in reasons:
             ctx.count("reason_" + rs)
-        kind = failure_kind(r, s1)
+        kind = failure_kind(r, s1, c["id1"])
         ctx.count("real_" + (kind or "roundtrip-ok"))
+        # what the Lean model of the CURRENT writer/reader predicts (None = the model does not cover it)
+        if r["stage"] == "write":
+            predicted_ok = False if o_write.startswith("err ") else None
+        elif o_read.startswith("ok "):
+            predicted_ok = o_read[3:] == s1
+        elif o_read == "err Unsupported":
+            predicted_ok = None
+        else:
+            predicted_ok = False
         # ---- correspondence -------------------------------------------------------------------------------------------
         if r["stage"] == "write":
             if o_write != "err " + r["exc"]:
@@ -180,7 +203,7 @@ def check(ctx):
                 ctx.disagree("from_json", label, r["s2"][:200], o_read[:200])
         # ---- the property on the real code ---------------------------------------------------------------------------------
         ill = [x for x in reasons if x in ILL_FORMED]
-        if not well_formed or ill:
+        if not (well_formed or c["verifies"]) or ill:
             ctx.count("skipped_not_well_formed")
             if well_formed and ill:
                 ctx.note(f"{label}: Spec.IR wf holds but the fragment predicate reports {ill}")
@@ -189,8 +212,12 @@ def check(ctx):
             if kind:
                 ctx.fail("irjson:roundtrip:" + kind, f"module {label} is inside the proved fragment but the real round trip fails: {kind}",
                          {"label": label, "module": s1})
+        elif kind and predicted_ok:
+            ctx.fail("irjson:roundtrip:" + kind,
+                     f"{label}: {kind}; the module is outside the proved fragment ({reasons}) but the model of the reader round-trips it",
+                     {"label": label, "module": s1})
         elif kind:
-            sig = FINDING_OF.get(reasons[0], "irjson:" + reasons[0])
+            sig = finding_signature(reasons, c["module"])
             ctx.fail(sig, f"{label}: {kind} (excluded construct: {reasons})", {"label": label, "module": s1})
         else:
             ctx.count("outside_fragment_but_roundtrips")
